@@ -666,6 +666,14 @@ func (w *World) lemmaBody(lem *Lemma, args []SVal) *Term {
 		lev.bound[p.Name] = args[i]
 	}
 	var req, ens []*Term
+	// lemmas are proved for well-formed slices (0 <= len, 0 <= off, both <= 2^48): an instance
+	// at other arguments must not be used
+	for _, a := range args {
+		if s, ok := a.(SSlice); ok && s.Len != nil && s.Off != nil {
+			req = append(req, BVCmp("bvsle", BVInt(0, 64), s.Len), BVCmp("bvsle", BVInt(0, 64), s.Off),
+				BVCmp("bvsle", s.Len, BVInt(int64(1)<<48, 64)), BVCmp("bvsle", s.Off, BVInt(int64(1)<<48, 64)))
+		}
+	}
 	for _, c := range lem.Clauses {
 		switch c.Kind {
 		case "requires":
